@@ -18,7 +18,17 @@ subset.  Commands.tla keeps the destination as state (entries: copy / symlink / 
 model), lets every run handle its utterances in any order and checks that after every run that is not refused
 the requested files read as the source does now and nothing unrequested is there; os.link / os.symlink refusing
 an existing name is the explicit outcome "raises".  The exported histories are replayed run by run; a writer
-that leaves existing files alone (SubRunFault) must be rejected by TLC."""
+that leaves existing files alone (SubRunFault) must be rejected by TLC.
+
+Literal names and the order of ids.  A naming of Commands.tla is prefix, suffix, the ids of the corpus and the name
+of the directory the data live in, all sequences of characters.  GlobNamings put [ ] * ? into prefix, suffix and
+directory (every conversion command is replayed on them, with a file in the input directory that only a reading of
+prefix*suffix as a shell pattern would select); IdNamings hold ids whose order differs from the order of their file
+names (r < r-a < r0 but r-a.pt < r.pt < r0.pt): the subset criteria are defined over the order of the IDS (SubOK:
+every chosen id is smaller / greater as a string than every id left behind) and the error-rate command is modelled
+with incomplete directories under --warn-missing -- two listings ascending by id walked in step (ErMerge) keep exactly
+the utterances in both directories (ErMergeOK), over which the totals are taken.  Two deliberately wrong definitions
+(CommandsMC: SelectsGlob, ListKeyFileName) must be rejected by TLC (Naming; SubOK and ErMergeOK)."""
 import contextlib
 import io
 import json
@@ -69,8 +79,11 @@ class Env:
     def __init__(self, ctx, rec, idx, mode, schedules, pool_cls=fakepool.FakePool):
         self.ctx, self.rec, self.idx, self.mode, self.schedules = ctx, rec, idx, mode, schedules
         self.pool_cls = pool_cls
-        self.root = os.path.join(_tr.fast_scratch(ctx, "c17"), "case")
-        shutil.rmtree(self.root, ignore_errors=True)
+        self.base = os.path.join(_tr.fast_scratch(ctx, "c17"), "case")
+        shutil.rmtree(self.base, ignore_errors=True)
+        # (the naming's directory: every directory of the case lives in it; its name is part of the case)
+        self.dir = J(rec.get("dir", []))
+        self.root = os.path.join(self.base, self.dir) if self.dir else self.base
         os.makedirs(self.root)
         self.tt = _tr.TOKEN_TABLES[idx % len(_tr.TOKEN_TABLES)]
         self.pre, self.suf = J(rec["pre"]), J(rec["suf"])
@@ -78,6 +91,11 @@ class Env:
         self.utts = [J(x) for x in rec["utts"]]
         self.distractors = [J(x) for x in rec["distractors"]]
         self.plans = []
+        # the spec's order of strings (CodeTable) must be python's
+        for key, strs in (("idorder", self.utts), ("fileorder", self.names)):
+            if key in rec and [strs[i - 1] for i in rec[key]] != sorted(strs):
+                raise MachineryError("Commands.tla orders %r as %r; python sorts them as %r"
+                                     % (strs, [strs[i - 1] for i in rec[key]], sorted(strs)))
 
     def p(self, *a):
         return os.path.join(self.root, *a)
@@ -173,10 +191,12 @@ def compare_dir(env, site, got, want, what="file"):
     ok = True
     if missing:
         cls = "nothing_converted" if not got else "some_missing"
-        if cls == "nothing_converted" and env.pre:
+        if cls == "nothing_converted" and any(c in env.pre + env.suf + env.dir for c in "[]*?"):
+            cls = "nothing_converted_pattern_characters"  # (prefix / suffix / directory are literal strings)
+        elif cls == "nothing_converted" and env.pre:
             cls = "nothing_converted_with_prefix"
-        env.violation(site, "files_missing", "%s: %ss %r were not produced (produced: %r; prefix %r suffix %r)"
-                      % (site, what, missing, sorted(got), env.pre, env.suf), cls=cls)
+        env.violation(site, "files_missing", "%s: %ss %r were not produced (produced: %r; prefix %r suffix %r directory %r)"
+                      % (site, what, missing, sorted(got), env.pre, env.suf, env.dir), cls=cls)
         ok = False
     if extra:
         cls = "other"
@@ -522,9 +542,13 @@ def fam_er(env):
     if not rec["defined"]:
         env.ctx.count("er_undefined_figure_not_run")
         return {}
+    present = {"ref": rec.get("inref") or [True] * len(env.names), "hyp": rec.get("inhyp") or [True] * len(env.names)}
+    kept = [env.utts[i - 1] for i in rec["kept"]] if "kept" in rec else list(env.utts)  # in both directories
     for sub, k in (("ref", 0), ("hyp", 1)):
         os.makedirs(env.p(sub))
-        for nm, pair in zip(env.names, rec["data"]):
+        for nm, pair, there in zip(env.names, rec["data"], present[sub]):
+            if not there:
+                continue
             seq = pair[k]
             t = torch.tensor([IDS[x] for x in seq], dtype=torch.long)
             if env.idx % 2:  # (R, 3) tensors with segment times are accepted too
@@ -547,6 +571,9 @@ def fam_er(env):
         args += ["--distances"]
     if rec["perutt"]:
         args += ["--per-utt"]
+    if rec.get("warn"):
+        args += ["--warn-missing"]
+    incomplete = sorted(u for u in env.utts if u not in kept)
     site = "compute-torch-token-data-dir-error-rates"
     try:
         env.run(site, cl.compute_torch_token_data_dir_error_rates, args, uses_pool=False)
@@ -558,10 +585,16 @@ def fam_er(env):
     try:
         if rec["perutt"]:
             got = {ln.split()[0]: float(ln.split()[1]) for ln in text.splitlines() if ln.strip()}
-            if sorted(got) != sorted(env.utts):
-                env.violation(site, "utterances", "printed utterances %r expected %r" % (sorted(got), env.utts))
+            if sorted(got) != sorted(kept):
+                dropped = sorted(set(kept) - set(got))
+                env.violation(site, "utterances", "printed utterances %r, expected %r: those in both directories (only one "
+                              "directory holds %r; the ids sorted: %r, the file names sorted: %r)"
+                              % (sorted(got), sorted(kept), incomplete, sorted(env.utts), sorted(env.names)),
+                              **(dict(cls="utterance_in_both_directories_dropped") if dropped and set(got) <= set(kept) else {}))
                 return {}
             for u, lo, hi, rl in zip(env.utts, rec["lo"], rec["hi"], rec["reflen"]):
+                if u not in got:
+                    continue
                 den = 1 if rec["dist"] else rl
                 if not (lo - eps <= got[u] * den <= hi + eps):
                     env.violation(site, "value", "utterance %r: printed %r; edits of a minimum-cost alignment are in "
@@ -569,11 +602,13 @@ def fam_er(env):
                     break
         else:
             v = float(text.strip())
-            den = len(env.utts) if rec["dist"] else rec["totlen"]
+            den = len(kept) if rec["dist"] else rec["totlen"]
             if not (rec["totlo"] - eps <= v * den <= rec["tothi"] + eps):
-                env.violation(site, "value", "printed %r; total edits in [%d, %d] over %s %d (pairs %r, options %r)"
+                env.violation(site, "value", "printed %r; total edits in [%d, %d] over %s %d (pairs %r, options %r%s)"
                               % (v, rec["totlo"], rec["tothi"], "utterances" if rec["dist"] else "reference tokens", den,
-                                 rec["data"], args[3:]))
+                                 rec["data"], args[3:],
+                                 "; utterances %r, of which only one directory holds %r" % (env.utts, incomplete) if incomplete else ""),
+                              **(dict(cls="incomplete_directories") if incomplete else {}))
     except (ValueError, IndexError):
         env.violation(site, "format", "cannot parse the output %r" % (text[:200],))
     return dict(out=text)
@@ -634,7 +669,14 @@ def fam_sub(env):
             for f in os.listdir(d):
                 got[sub + "/" + f] = 0
     want = {x[0] + "/" + J(x[1]): 0 for x in rec["files"]}
-    if compare_dir(env, site, got, want):
+    # the one mistake the specification names: the utterances listed by FILE NAME instead of by id (SubChosenByFile)
+    byfile = {sub + "/" + env.names[i - 1]: 0 for i in rec.get("byfile", []) for sub in ("feat", "ali", "ref") if rec["has"][i - 1][sub]}
+    if "byfile" in rec and got != want and got == byfile:
+        env.violation(site, "selection_order", "%s %s selected %r; listed by id (%r) the utterances to select are %r -- what was "
+                      "selected is what comes first when the FILE NAMES are sorted (%r)"
+                      % (site, " ".join(map(str, cargs)), sorted(got), sorted(env.utts), sorted(want), sorted(env.names)),
+                      cls="by_file_name")
+    elif compare_dir(env, site, got, want):
         for k in want:
             sub, nm = k.split("/", 1)
             v = torch.load(os.path.join(env.p("dest"), sub, nm))
@@ -834,7 +876,7 @@ def run_case(ctx, rec, idx, mode, schedules, pool_cls=fakepool.FakePool):
     try:
         return HANDLERS[rec["fam"]](env)
     finally:
-        shutil.rmtree(env.root, ignore_errors=True)
+        shutil.rmtree(env.base, ignore_errors=True)
 
 
 def check_worker_free(ctx, rec, idx, mode, schedules, base, pool_cls=fakepool.FakePool):
@@ -964,7 +1006,27 @@ def commands_jobs(ctx):
         with open(p, "w") as f:
             f.write(qtxt.replace("Fams <- AllFams", 'Fams = {"subrun"}').replace("SubRunFault = FALSE", "SubRunFault = TRUE"))
         jobs.append(("CommandsFault/subrun", CM_MOD, p, dict(workers=2, timeout=600, coverage=False)))
+    # non-vacuity of the naming / ordering universes: a selection that reads prefix*suffix as a shell pattern and a
+    # listing by file name must be rejected (CommandsMC.tla; always on the quick universe)
+    for fam, (override, _) in sorted(FAULTS.items()):
+        if fam.split("-")[0] not in FAMS:
+            continue
+        with open(os.path.join(SPECS, "Commands_quick.cfg")) as f:
+            qtxt = f.read()
+        if "  KeepHist = FALSE\n" not in qtxt:
+            raise MachineryError("unexpected cfg layout in Commands_quick.cfg")
+        p = os.path.join(ctx.subdir("cfg"), "%s_fault_Commands_quick.cfg" % fam)
+        with open(p, "w") as f:
+            f.write(qtxt.replace("Fams <- AllFams", 'Fams = {"%s"}' % fam.split("-")[0])
+                    .replace("  KeepHist = FALSE\n", "  KeepHist = FALSE\n  %s <- %s\n" % override))
+        jobs.append(("CommandsFault/" + fam, CM_MOD, p, dict(workers=1, timeout=600, coverage=False)))
     return jobs
+
+
+# deliberately wrong definition -> the invariant that must reject it
+FAULTS = {"ali-glob": (("Selects", "SelectsGlob"), "Naming"),
+          "sub-filename": (("ListKey", "ListKeyFileName"), "SubOK"),
+          "er-filename": (("ListKey", "ListKeyFileName"), "ErMergeOK")}
 
 
 def run(ctx):
@@ -972,8 +1034,9 @@ def run(ctx):
 
     torch.set_num_threads(1)
     ctx.rule = ("every case exported by TLC from Commands.tla (corpora of 1-4 utterances x default / non-default "
-                "prefix and suffix x the commands' option universes, with files in the input directories that must "
-                "not be selected) drives the real console entry points in-process: serially, under a FakePool "
+                "prefix and suffix -- also prefixes, suffixes and directory names holding [ ] * ?, and ids whose order is not "
+                "that of their file names -- x the commands' option universes, with files in the input directories that must "
+                "not be selected; error rates also with incomplete directories under --warn-missing) drives the real console entry points in-process: serially, under a FakePool "
                 "behaviour of WorkerPool.tla chosen round-robin, and -- on the larger corpora -- under every "
                 "behaviour an in-process pool can distinguish; histories of 2-3 subset runs into one destination with "
                 "the source data changing in between are replayed run by run.  Non-trivial: >= 2 utterances, a non-default prefix "
@@ -983,6 +1046,8 @@ def run(ctx):
         "entry points are called in-process through their python functions with argument lists",
         "times are multiples of 125 ms or of the frame shift, frame shifts integer ms (float arithmetic exact); the "
         "documented frame formulas are compared informationally, verdicts use the one-frame bound",
+        "error rates: missing utterances only together with --warn-missing (without it the command refuses: not judged); "
+        "ids are free of white space (the per-utterance output separates id and figure by a space)",
         "error rates: per-utterance figures and totals with a zero denominator are not defined and not run; for "
         "unequal costs any edit count of a minimum-cost alignment is accepted (C02)",
         "TextGrid round trips use tiers that are all intervals of positive length or all points, precision >= 3",
@@ -1006,6 +1071,13 @@ def run(ctx):
                                      "SubRunIdentical (%s)" % (name, r.error))
             ctx.add_tlc(name + " (expected violation of SubRunIdentical)", r, count_states=False)
             continue
+        if name.startswith("CommandsFault/"):
+            want = FAULTS[name.split("/")[1]][1]
+            if r.ok or ("Invariant %s is violated" % want) not in (r.error or ""):
+                raise MachineryError("%s: the deliberately wrong definition %s was not rejected by %s (%s)"
+                                     % (name, FAULTS[name.split("/")[1]][0][1], want, r.error))
+            ctx.add_tlc("%s (expected violation of %s)" % (name, want), r, count_states=False)
+            continue
         tlc.require_ok(r, name)
         ctx.add_tlc(name, r)
         if name.startswith("Commands/"):
@@ -1025,6 +1097,13 @@ def run(ctx):
                     raise MachineryError("the subrun universe lacks refused runs / link-style histories without a refusal")
             if not recs[fam]:
                 raise MachineryError("no cases exported for " + name)
+            glob_ = [x for x in recs[fam] if any(c in J(x["pre"]) + J(x["suf"]) + J(x["dir"]) for c in "[]*?")]
+            if fam in ("ali", "trn", "ctm", "tg", "sub", "er") and not (any(x["dir"] for x in glob_) and any(x["pre"] for x in glob_)):
+                raise MachineryError("%s: no naming with [ ] * ? in prefix / suffix and in the directory" % name)
+            if fam in ("sub", "er") and not any(x["idorder"] != x["fileorder"] and len(x["data"]) >= 3 for x in recs[fam]):
+                raise MachineryError("%s: no corpus whose ids and file names sort differently" % name)
+            if fam == "er" and not any(x["warn"] and not all(x["inhyp"]) for x in recs[fam]):
+                raise MachineryError("%s: no incomplete hypothesis directory" % name)
         else:
             tlc.require_covered(r, _tr.WP_ACTIONS, name)
     schedules = _tr.group_schedules(res["WorkerPool/schedules"].records)
@@ -1040,7 +1119,7 @@ def run(ctx):
         big = max(len(r["data"]) for r in recs[fam])
         sweep_left = 1  # one larger corpus per family is swept under every distinguishable behaviour
         for idx, rec in enumerate(recs[fam]):
-            nd = (rec["pre"] != [] or J(rec["suf"]) != ".pt")
+            nd = (rec["pre"] != [] or J(rec["suf"]) != ".pt" or rec["dir"] != [] or rec["idorder"] != rec["fileorder"])
             ctx.case(key=(fam, rec), nontrivial=len(rec["data"]) >= 2 or nd,
                      sample={k: v for k, v in rec.items() if k not in ("distractors",)} if idx == len(recs[fam]) // 3 else None)
             before = len(ctx.violations) + sum(ctx.known_hits.values())
